@@ -45,6 +45,10 @@ def instances(tier, seed):
                             out.append(dict(kinds=kinds, bonds=bonds, qn=qn, qnidx=idx, method=method, to_right=to_right, variant=variant,
                                             label="heff %s %s idx=%d right=%s %s qn=%s" % ("".join(kinds), method, idx, to_right, variant,
                                                                                         str([[r[0] for r in q] for q in qn]).replace(" ", "")), key="heff/%s/%s" % (method, variant)))
+                            if variant == "plain" and to_right and (len(kinds) == 2 or (method == "1site" and tier == "thorough")):
+                                d = dict(out[-1])
+                                d.update(cplx=True, label=d["label"] + " complex state", key=d["key"] + "/complex")
+                                out.append(d)
     # the real optimize_mps driver (one sweep) with the eigensolver replaced by a contract stub: environment handling, the omega shift
     # and the mask at EVERY local step of the real sweep
     sw = [(("e", "e"), (1, 2, 1)), (("e", "e", "e"), (1, 2, 2, 1))]
@@ -239,7 +243,7 @@ def make_harness(P):
         model = lib.make_model(P["kinds"])
         n = model.nsite
         idx = P["qnidx"]
-        mps = lib.build_mps(ctx, "a", model, P["bonds"], [np.array(q) for q in P["qn"]], [1], idx, to_right=P["to_right"], kind="real", coeff="one")
+        mps = lib.build_mps(ctx, "a", model, P["bonds"], [np.array(q) for q in P["qn"]], [1], idx, to_right=P["to_right"], kind=("cplx" if P.get("cplx") else "real"), coeff="one")
         mps.optimize_config = OptimizeConfig()
         mps.optimize_config.method = P["method"]
         mpo = sym_mpo(ctx, "o", model, n)
@@ -291,11 +295,11 @@ def make_harness(P):
             e[k_] = 1
             c = cvec2cmat(e, mask)
             basis_vecs.append(_contract(left + [np.asarray(c)] + right))
-        ref = np.empty((K, K), dtype=object if ctx.symbolic else float)
+        ref = np.empty((K, K), dtype=object if ctx.symbolic else complex)
         Hv = [Heff_dense.dot(v) for v in basis_vecs]
         for i in range(K):
             for j in range(K):
-                ref[i, j] = sum((a * b for a, b in zip(basis_vecs[i], Hv[j])), 0)
+                ref[i, j] = sum((lib.conj(a) * b for a, b in zip(basis_vecs[i], Hv[j])), 0)
         ctx.check("direct effective Hamiltonian = projection of H onto the masked centre coefficients", ctx.eq(ham, ref))
         if variant in ("plain", "omega"):
             hdiag, expr = gs.get_ham_iterative(mps, mask, lt, rt, cmo, omega)
